@@ -634,7 +634,12 @@ def c17_reconnect_runs(ctx, binp):
         model = rng.choice(["lepton3", "boson"])
         conns, mev, fid = [], [], 1
         for c in range(rng.choice([2, 3])):
-            conn, ev, fid = build_conn(rng, settings, w, h, fps, model, fid, rng.randint(25, 60), with_clear=(k % 2 == 0), with_bad=False)
+            nit = rng.randint(25, 60)
+            if k % 2 == 1 and c == 0:
+                # the first connection ends exactly on a continuous-file boundary (files hold max-secs*fps + 1 frames)
+                per = settings["max"] * fps + 1
+                nit = per * max(2, 30 // per)
+            conn, ev, fid = build_conn(rng, settings, w, h, fps, model, fid, nit, with_clear=(k % 2 == 0), with_bad=False)
             conns.append(conn)
             mev += ev
         scen = dict(config=toml(settings), prefiles=[], conns=conns)
